@@ -77,6 +77,16 @@ class Frames:
 
     def k_history(self, env, cell, native):
         p = cell["p"]
+        if native:
+            # natively the baseline comes from a FRESH process: the worker process that replays this cell has usually
+            # assembled other programs before, so an in-process baseline may already carry the leaked state
+            first = _fresh_views({p: PROGRAMS[p]}).get(p)
+            for q in list(PROGRAMS) + list(REJECTED):
+                _native_view(PROGRAMS.get(q) or REJECTED.get(q))
+            again = _native_view(PROGRAMS[p])
+            env.ensure("C17:same-output-after-other-programs", first == again, ("C17",),
+                       lambda: "output of %s changed after other assemblies" % p)
+            return
         first = _view(assemble(env, PROGRAMS[p], want_listing=True))
         for q in list(PROGRAMS) + list(REJECTED):
             lines = (PROGRAMS.get(q) or REJECTED.get(q))
@@ -95,28 +105,50 @@ class Frames:
             # only observable on the real interpreter; symbolically this is implied by the frame obligations (DESIGN A6)
             env.ensure("C17:fresh-process-agrees", True, ("C17",))
             return
-        repo = os.environ.get("VERIF_REPO", "/repo")
-        code = ("import sys, json; sys.path.insert(0, %r)\n"
-                "from cocoasm.program import Program\n"
-                "progs = json.loads(sys.stdin.read())\n"
-                "out = {}\n"
-                "for k, lines in progs.items():\n"
-                "    p = Program(); p.process(lines)\n"
-                "    out[k] = [p.get_binary_array(), p.get_statements(), p.get_symbol_table()]\n"
-                "print(json.dumps(out))\n") % repo
-        res = []
-        for seed in ("0", "12345"):
-            e = dict(os.environ, PYTHONHASHSEED=seed)
-            o = subprocess.run([sys.executable, "-c", code], input=json.dumps(PROGRAMS), capture_output=True, text=True, env=e, timeout=60)
-            res.append(json.loads(o.stdout) if o.returncode == 0 else {"error": o.stderr[-200:]})
+        # every program in its OWN fresh process (two hash seeds) against the warm process that has assembled everything
+        res = [_fresh_views(PROGRAMS, seed) for seed in ("0", "12345")]
         warm = {}
         for k, lines in PROGRAMS.items():
-            r = assemble(env, lines, want_listing=True)
-            from cocoasm.program import Program
-            p = Program()
-            p.process(list(lines))
-            warm[k] = [p.get_binary_array(), p.get_statements(), p.get_symbol_table()]
-        env.ensure("C17:fresh-process-agrees", res[0] == res[1] == warm, ("C17",), lambda: "fresh/warm/hash-seed runs disagree")
+            _native_view(lines)
+        for k, lines in PROGRAMS.items():
+            warm[k] = _native_view(lines)
+        env.ensure("C17:fresh-process-agrees", res[0] == res[1] == warm, ("C17",),
+                   lambda: "fresh/warm/hash-seed runs disagree: %s" % ",".join(k for k in PROGRAMS if not (res[0].get(k) == res[1].get(k) == warm.get(k))))
+
+
+_FRESH_CODE = ("import sys, json; sys.path.insert(0, %r)\n"
+               "from cocoasm.program import Program\n"
+               "lines = json.loads(sys.stdin.read())\n"
+               "try:\n"
+               "    p = Program(); p.process(lines)\n"
+               "    out = [p.get_binary_array(), p.get_statements(), p.get_symbol_table()]\n"
+               "except Exception as e:\n"
+               "    out = ['raised', type(e).__name__]\n"
+               "print(json.dumps(out))\n")
+
+
+def _fresh_views(programs, seed="0"):
+    repo = os.environ.get("VERIF_REPO", "/repo")
+    out = {}
+    for k, lines in programs.items():
+        e = dict(os.environ, PYTHONHASHSEED=seed)
+        o = subprocess.run([sys.executable, "-c", _FRESH_CODE % repo], input=json.dumps(list(lines)), capture_output=True, text=True, env=e,
+                           timeout=60)
+        out[k] = json.loads(o.stdout) if o.returncode == 0 else ["error", o.stderr[-200:]]
+    return out
+
+
+def _native_view(lines):
+    repo = os.environ.get("VERIF_REPO", "/repo")
+    if repo not in sys.path:
+        sys.path.insert(0, repo)
+    from cocoasm.program import Program
+    try:
+        p = Program()
+        p.process(list(lines))
+        return [p.get_binary_array(), p.get_statements(), p.get_symbol_table()]
+    except Exception as e:  # noqa
+        return ["raised", type(e).__name__]
 
 
 LEMMAS = [Frames()]
